@@ -1,6 +1,6 @@
 import os, vf
 from pbase import Base
-import gen_nanbox
+import gen_nanbox, gen_rs2v
 
 
 class Property(Base):
@@ -11,13 +11,15 @@ class Property(Base):
     shrink_ops = True
     trusted_base = Base.COMMON_TB + [
         "translator T1 (translators/gen_nanbox.py): every const of impl NanBox and the Tag/ErrorCode discriminants are regenerated from core/src/read.rs as functions of the pointer width",
-        "hand-transcribed bodies of encode/number/try_decode (coq/theories/NanBox/NanBox.v), tied to the code by the correspondence on the host width (W=64, Val=u128); the W=32 instance is exercised under Miri/i686 in the thorough tier when the sysroot is available",
+        "translator T8 (translators/rs2v): encode, the seven constructors and try_decode of core/src/read.rs are REGENERATED into Gen/NanBoxFnGen.v on every run; theorems C06_code_* prove the model's functions (NanBox/NanBox.v) equal to them at W=32 AND W=64 for all arguments in range (trusted: the translation scheme of rs2v and Base/RsPrelude.v: width of each integer type, checked shifts, truncating casts; NanBox::tag + Tag::from_val and the two strum::FromRepr derives are hand-written in NanBox/NanBoxExt.v over the regenerated tables)",
+        "correspondence of the model with the real NanBox on the host width (W=64, Val=u128)",
     ]
     assumptions = ["Rust's `as` casts and shifts on u64/u128 behave as modelled (truncation / bits shifted out are lost)"]
 
     def regen(self):
         changed, info = gen_nanbox.generate(vf.REPO, os.path.join(vf.COQ, "theories/Gen/NanBoxGen.v"))
-        return {"consts": info["consts"], "tags": info["Tag"], "error_codes": info["ErrorCode"]}
+        t8 = gen_rs2v.generate(vf.REPO, "NanBoxFnGen")
+        return {"consts": info["consts"], "tags": info["Tag"], "error_codes": info["ErrorCode"], "T8": t8}
 
     def property_failure(self, block, I, S, M):
         ops = [l for l in block[1:] if l != "END"]
